@@ -196,6 +196,13 @@ def group_a(out, tier):
             out.add("a-ubox", [c] + list(w) + [dump(U, "b"), call(U, "b", "as_ltwh"),
                                                call(U, "b", "get_vertices", bind="p"),
                                                call("Polygon", "p", "get_points")])
+        if depth < 2:
+            # the polygon cache: generate it, change the box in place, read the polygon again
+            gen = call(U, "b", "gen_vertices")
+            for m in u_mutators():
+                out.add("a-ubox", [c, gen, m, dump(U, "b"), call(U, "b", "get_vertices", bind="p"),
+                                   call("Polygon", "p", "get_points"), gen,
+                                   call(U, "b", "get_vertices", bind="p2"), call("Polygon", "p2", "get_points")])
     for c in b_ctors():
         out.add("a-bbox", [c] + b_observe())
         for w in words(b_mutators(), depth, 1):
